@@ -94,6 +94,10 @@ def jobs(tier):
     subs = []
     for seq in _sequences(n):
         subs.append({'name': 'seq:' + _name(seq), 'shape': {'ops': seq}, 'params': _params(seq)})
+    # hand-picked 3-operation sequences: the same request dictionary used twice, then released
+    for seq in ([['R', 0], ['Q'], ['F', 0]], [['R', 4], ['Q'], ['F', 0]], [['R', 0], ['Q'], ['P', 0, 0]], [['R', 0], ['Q'], ['F', 1]],
+                [['R', 4], ['Q'], ['E', 0]]):
+        subs.append({'name': 'pick:' + _name(seq), 'shape': {'ops': seq}, 'params': _params(seq)})
     for pi, (pre_ops, pre) in enumerate(_PREFIXES):
         nres = sum(1 for o in pre_ops if o[0] == 'R')
         # two-operation tails only from the single-reservation prefixes (CPU budget of the thorough tier)
